@@ -310,8 +310,25 @@ def sink_id_wrap():
     return runs
 
 
+def sink_window_negotiation():
+    """the send window is min(configured max_send, the peer's Receive Maximum) - the PEER's, whichever side is larger
+    and whatever this endpoint announced itself: six sends, the peer withholds its acknowledgements"""
+    runs = []
+    for role in ("server", "client"):
+        for max_send, peer_rm in ((8, 2), (2, 8), (4, 1), (3, 3)):
+            cfg = dict(role=role, ver=5, max_send=max_send, gate_pub=1)
+            if role == "client":
+                cfg["client_receive_max"] = 5       # what the client announces itself is irrelevant for its sends
+            cmds = [handshake(role, 5, connack={"rm": peer_rm}, connect={"rm": peer_rm})]
+            for i in range(1, 7):
+                cmds += [{"c": "send", "s": i, "k": "q1" if i % 3 else "q2", "id": 0}, {"c": "poll", "s": i}]
+            cmds += [{"c": "ack", "n": 1}, {"c": "settle"}]
+            runs.append(dict(cfg=cfg, cmds=cmds, src="window_negotiation"))
+    return runs
+
+
 def sink_random(tier, rnd):
-    runs = sink_local_failures() + sink_negative_acks() + sink_dropped_senders() + sink_real_backpressure() + sink_id_wrap()
+    runs = sink_window_negotiation() + sink_local_failures() + sink_negative_acks() + sink_dropped_senders() + sink_real_backpressure() + sink_id_wrap()
     for _ in range(300 if tier == "quick" else 4000):
         ver = rnd.choice([3, 5])
         role = rnd.choice(["server", "client"])
@@ -532,6 +549,10 @@ def inb_configs(tier):
             # behaviour to be replayed in quick (the inline slot of the io dispatcher free while its queue is not empty,
             # responses of younger requests parked behind an older one, ...)
             base.append(("q1x3", dict(ids="Ids123", n=3, kinds="KPub1", outs="OOk", imm=F, gp=F), 6000))
+            if srv:
+                # one identifier, QoS 1 / QoS 2 publishes and PUBREL with gated protocol handlers, every order: the
+                # identifier stays reserved until PUBCOMP has been produced (not only until PUBREL has arrived)
+                base.append(("q2rel", dict(ids="Ids1", n=3, kinds="KPub12", outs="OOk", imm=F, gp=T), 5000))
             if not srv:
                 # PUBREL towards a client for an identifier that is not in flight (answered by the library itself) between
                 # publishes whose handlers are pending: the answer keeps its place in the order
